@@ -318,6 +318,24 @@ type object struct {
 func Image(log []Op, k int, v Variant, srcDir, dstDir string) error {
 	objs := map[int64]*object{}
 	names := map[string]int64{} // base name -> object id
+	// files already present in dstDir (an earlier crash image) are the starting state
+	preexisting := map[string]bool{}
+	if ents, err := os.ReadDir(dstDir); err == nil {
+		var pid int64 = -1000
+		for _, e := range ents {
+			if e.IsDir() {
+				continue
+			}
+			b, err := os.ReadFile(filepath.Join(dstDir, e.Name()))
+			if err != nil {
+				return err
+			}
+			pid--
+			objs[pid] = &object{data: b, synced: append([]byte(nil), b...)}
+			names[e.Name()] = pid
+			preexisting[e.Name()] = true
+		}
+	}
 	rel := func(p string) (string, bool) {
 		r, err := filepath.Rel(srcDir, p)
 		if err != nil || len(r) >= 2 && r[:2] == ".." {
@@ -392,6 +410,11 @@ func Image(log []Op, k int, v Variant, srcDir, dstDir string) error {
 	}
 	if v.Torn >= 0 && k < len(log) && log[k].Kind == "write" {
 		apply(log[k], v.Torn)
+	}
+	for n := range preexisting {
+		if _, ok := names[n]; !ok {
+			os.Remove(filepath.Join(dstDir, n))
+		}
 	}
 	for n, id := range names {
 		o := objs[id]
